@@ -133,6 +133,7 @@ theorem insert_fault_bucket (key : Bytes) (o : WriteOpts) (b0 : Bytes) (fs : FS)
     (∃ tm k, BucketIs (runFault env plan (insert cfg cache key o) fs 0).2.1 (bucketPath cfg cache key)
       (b0 ++ ((codec cfg).frame (mkRec key o tm)).take k)) ∧
     (∀ s, (runFault env plan (insert cfg cache key o) fs 0).1 = .ok s → ∃ tm,
+      (∀ t, o.time = some t → tm = t) ∧
       (runFault env plan (insert cfg cache key o) fs 0).2.1.get (bucketPath cfg cache key) =
         some (.file (b0 ++ (codec cfg).frame (mkRec key o tm)))) :=
   wpD_fault (insert_bucket_wp cfg env cache key o b0 hb) plan 0
